@@ -13,10 +13,15 @@ TOTAL = 16      # steps of the uninterrupted run
 NPER = 8        # steps per synchrotron period: a power of two, so that -T k/8 is exact in single precision
 
 
-def base(n, imp):
+# further parameters that both legs and the uninterrupted run share ("with the same parameters")
+VARIANTS = [[], ["--PhaseSpaceShiftX", 2, "--PhaseSpaceShiftY", -1], ["--PhaseSpaceShiftY", 3], ["--LinearRF", "false", "--derivation", 3],
+            ["--PhaseSpaceSize", 10, "--InterpolationPoints", 3], ["--alpha1", 0.02, "-f", 30000]]
+
+
+def base(n, imp, var=0):
     a = ["-s", n, "-N", NPER, "--padding", 2, "-I", 1e-3, "-d", 0.004]
     a += (["-G", 0] if imp == "none" else ["-G", 0.03, "--UseCSR", "false", "--CollimatorRadius", 0.002])
-    return a
+    return a + VARIANTS[var]
 
 
 def blob(n):
@@ -42,8 +47,9 @@ def last_ps(doc, idx=-1):
 def run(res, tier):
     res.assumptions += [
         "horizon 16 steps (8 per synchrotron period: step counts exact in single precision); all split points 1..15",
-        "bit-identity demanded for RenormalizeCharge<0; otherwise the continued run renormalises on a different schedule: difference bounded by (|1-Q|+1e-6)*max f with Q the recorded charge",
+        "bit-identity demanded for RenormalizeCharge<0; otherwise the continued run renormalises on a different schedule: difference bounded by (|1-Q|+1e-6)*max f with Q the recorded charge (twice that with an impedance: amplitude and wake kick both scale with the charge)",
         "same FFTW wisdom for all runs (warm-up); start state = asymmetric off-centre blob loaded from a start file",
+        "RF modulation / noise are not part of the lattice (the modulation phase is a function of the time since program start, which a results file does not carry)",
         "a start file of another grid size is not a C11 refusal case (not listed in the statement); it is covered as a memory-safety case by C17"]
     exe = pl.build.build_bin("plain")
     ns = [16, 24] if tier == "thorough" else [16]
@@ -55,38 +61,45 @@ def run(res, tier):
     for n in ns:
         starts[n] = os.path.join(wd, "start%d.h5" % n)
         pl.write_start_h5(starts[n], n, blob(n))
-    groups = [(n, i, r) for n in ns for i in imps for r in renorms]
+    # last element: how the uninterrupted run and the first leg start - from the blob file, or from the built-in Gaussian (zoomed; no -i at all,
+    # so that only the second leg goes through the loader)
+    groups = [(n, i, r, 0, st) for n in ns for i in imps for r in renorms for st in ("file", "gauss")]
+    # the parameter variants: for one exact (RenormalizeCharge<0) and one bounded configuration (all of them in the thorough tier)
+    groups += [(n, i, r, v, st) for v in range(1, len(VARIANTS)) for st in ("file", "gauss") for n, i, r in ([(16, "collimator", -1), (16, "none", 0)] if tier == "quick" else [(n, i, r) for n in ns for i in imps for r in (-1, 0)])]
     srecs = [None] if tier == "quick" else [None, -1, 0, 2, -2]
 
+    def first_start(n, st):
+        return ["-i", starts[n]] if st == "file" else ["--InitialDistZoom", 0.8]
+
     def full(g):
-        n, imp, rn = g
-        r = pl.run(exe, base(n, imp) + ["-i", starts[n], "-T", TOTAL / NPER, "-n", 0, "--RenormalizeCharge", rn], wd, out="full_%d_%s_%d.h5" % g)
+        n, imp, rn, var, st = g
+        r = pl.run(exe, base(n, imp, var) + first_start(n, st) + ["-T", TOTAL / NPER, "-n", 0, "--RenormalizeCharge", rn], wd, out="full_%d_%s_%d_%d_%s.h5" % g)
         return g, r, (pl.h5(r["h5"]) if r["rc"] == 0 else None)
     fulls = {g: (r, d) for g, r, d in pl.pmap(full, groups)}
 
     cases = []
     for g in groups:
         for t1 in range(1, TOTAL):
-            for sr in (srecs if (g[0] == 16 and g[1] == "collimator") or tier == "thorough" else [None]):
+            for sr in (srecs if (g[0] == 16 and g[1] == "collimator" and g[3] == 0 and g[4] == "file") or (tier == "thorough" and g[3] == 0 and g[4] == "file") else [None]):
                 cases.append((g, t1, sr))
     if tier == "quick":   # start-record variants for one configuration per renormalisation sign
-        for g in [(16, "collimator", -1), (16, "none", 0)]:
+        for g in [(16, "collimator", -1, 0, "file"), (16, "none", 0, 0, "file")]:
             for t1 in (3, 8, 15):
                 for sr in (-1, 0, 2, -2):
                     cases.append((g, t1, sr))
 
     def legs(c):
         g, t1, sr = c
-        n, imp, rn = g
-        tag = "%d_%s_%d_t%d_s%s" % (n, imp, rn, t1, sr)
-        a1 = base(n, imp) + ["-i", starts[n], "-T", t1 / NPER, "-n", 1, "--SavePhaseSpace", 1, "--RenormalizeCharge", rn]
+        n, imp, rn, var, st = g
+        tag = "%d_%s_%d_v%d_%s_t%d_s%s" % (n, imp, rn, var, st, t1, sr)
+        a1 = base(n, imp, var) + first_start(n, st) + ["-T", t1 / NPER, "-n", 1, "--SavePhaseSpace", 1, "--RenormalizeCharge", rn]
         r1 = pl.run(exe, a1, wd, out="leg1_%s.h5" % tag)
         if r1["rc"] != 0:
             return c, r1, None, None, None, None
         d1 = pl.h5(r1["h5"])
         nrec = d1["datasets"]["/PhaseSpace/data"]["dims"][0]       # records at steps 0..t1
         step_r = t1 if sr is None else (sr % nrec)
-        a2 = base(n, imp) + ["-i", r1["h5"], "-T", (TOTAL - step_r) / NPER, "-n", 1, "--SavePhaseSpace", 1, "--RenormalizeCharge", rn]
+        a2 = base(n, imp, var) + ["-i", r1["h5"], "-T", (TOTAL - step_r) / NPER, "-n", 1, "--SavePhaseSpace", 1, "--RenormalizeCharge", rn]
         if sr is not None:
             a2 += ["--InitialDistStep", sr]
         r2 = pl.run(exe, a2, wd, out="leg2_%s.h5" % tag)
@@ -101,8 +114,8 @@ def run(res, tier):
 
     for c, r1, d1, r2, d2, step_r in pl.pmap(legs, cases):
         g, t1, sr = c
-        n, imp, rn = g
-        case = "n=%d impedance=%s renorm=%d split=%d startrecord=%s" % (n, imp, rn, t1, sr)
+        n, imp, rn, var, st = g
+        case = "n=%d impedance=%s renorm=%d split=%d startrecord=%s start=%s%s" % (n, imp, rn, t1, sr, st, (" options=" + "_".join(str(x) for x in VARIANTS[var])) if var else "")
         rp = dict(leg1=r1["cmd"], leg2=r2["cmd"] if r2 else None, full=fulls[g][0]["cmd"])
         if d1 is None or d2 is None or "error" in d1 or "error" in d2 or fulls[g][1] is None:
             res.violate("C11/run-failed", case, "leg1 rc=%s leg2 rc=%s %s" % (r1["rc"], r2["rc"] if r2 else None, (r2 or r1)["log"][-200:]), replay=rp)
@@ -136,7 +149,7 @@ def run(res, tier):
             dev = max(abs(a - b) for a, b in zip(final2, finalf))
             popf = fulls[g][1]["datasets"]["/BunchPopulation/data"]["data"]
             qq = max(abs(1 - x) for x in pop + popf + d2["datasets"]["/BunchPopulation/data"]["data"])
-            bound = 1 * (qq + 1e-6) * mx
+            bound = (2 if imp != "none" else 1) * (qq + 1e-6) * mx   # with an impedance the kick itself scales with the charge: second contribution of the same order
             res.coverage["worst_drift_bounded_ratio"] = max(res.coverage.get("worst_drift_bounded_ratio", 0), dev / bound)
             if dev > bound:
                 res.violate("C11/end-state-differs/%s/%s" % (kb, "impedance" if imp != "none" else "no-impedance"), case,
@@ -173,7 +186,7 @@ def run(res, tier):
             res.violate("C11/refusal/%s/not-refused" % name, case, "results file produced=%s simulated=%s message=%s; log tail: %s" % (produced, simulated, msg, r["log"][-160:].replace("\n", " | ")), replay=dict(cmd=r["cmd"]))
     res.rule = ("one evaluation = one (configuration, split point, start record): leg 1, leg 2 and the uninterrupted run of the real binary compared; plus the refusal cases; "
                 "distinct = hash of case + final phase-space record hash")
-    res.bounds_done.append("all %d split points x %d configurations (grid sizes %s x impedance{none,collimator} x RenormalizeCharge{-1,0,3,4}) x start records %s; 5 refusal cases" % (TOTAL - 1, len(groups), ns, srecs))
+    res.bounds_done.append("all %d split points x %d configurations (grid sizes %s x impedance{none,collimator} x RenormalizeCharge{-1,0,3,4}; %d shared-parameter variants: grid shifts, RF model, stencil, phase-space size, alpha1/-f) x start records %s; 5 refusal cases" % (TOTAL - 1, len(groups), ns, len(VARIANTS) - 1, srecs))
     return None
 
 
